@@ -5,9 +5,9 @@ import (
 	"testing"
 
 	"github.com/Comcast/sheens/match"
-	"verif/internal/ev"
-	"verif/internal/jsongen"
-	"verif/internal/refmatch"
+	"verif/lib/ev"
+	"verif/lib/jsongen"
+	"verif/lib/refmatch"
 )
 
 // Small-scope enumeration: every pattern and every message over the
